@@ -397,9 +397,16 @@ func exprForMs(r *rng, ms int64, fr, tr int) ttTime {
 			if fr > 0 && ms*int64(fr)%1000 == 0 {
 				return ttTime{strconv.FormatInt(ms*int64(fr)/1000, 10) + "f", exact, "offset.f"}
 			}
+			if fr > 0 && ms < 1e12 {
+				// a fractional frame count: ms*fr/1000 frames
+				return ttTime{decStr(ms*int64(fr), 3, true) + "f", exact, "offset.f.frac"}
+			}
 		case 10:
 			if tr > 0 && ms*int64(tr)%1000 == 0 && ms > 0 {
 				return ttTime{strconv.FormatInt(ms*int64(tr)/1000, 10) + "t", exact, "offset.t"}
+			}
+			if tr > 0 && tr <= 1000 && ms > 0 && ms < 1e12 {
+				return ttTime{decStr(ms*int64(tr), 3, true) + "t", exact, "offset.t.frac"}
 			}
 		}
 	}
